@@ -10,6 +10,7 @@ from props.c13_macros import base_rule
 
 ID = "C19"
 LEVEL = "exploration"
+CGF_RUNS = {"thorough": 10000}  # coverage-guided stage (vlib/cgf.py): libFuzzer executions per worker, 16 workers
 RULE = (
     "A valid macro rule from the C13 factoring generator (>= 1 definition, in the file and/or extra macro files) receives one fault (kind drawn first): a reference to a "
     "fresh undefined @name inserted as list item, as operand, as $deref field value, as dict key with a times body, as dict key with an operand body, under $or / $not, or "
